@@ -647,6 +647,14 @@ theorem JI_step {j : JState} {seen off : List Nat} (h : JI j seen off) (e : Ev)
       · intro o ho; cases ho
       · intro o ho; cases ho
   | tflags n => exact ⟨rfl, rfl, h⟩
+  | rp o => exact ⟨rfl, rfl, h⟩
+  | rpNone o => exact ⟨rfl, rfl, h⟩
+  | rpDone o =>
+    refine ⟨rfl, rfl, ?_⟩
+    simp only [judge1] at hacc ⊢
+    split
+    · rename_i hc; rw [if_pos hc] at hacc; exact absurd hacc (flagV_bad_ne rfl)
+    · exact ⟨h.nodup, h.hseen, h.hoff, h.exp⟩
   | junk s => exact absurd hacc (flagV_bad_ne rfl)
 
 theorem advance_bad (j : JState) : (advance j).bad = j.bad := by
@@ -757,6 +765,9 @@ theorem judge1_bad (j : JState) (e : Ev) : (judge1 j e).bad = j.bad ∨ ∃ v, (
   | burn o => exact Or.inl rfl
   | tickOff => simp only [judge1]; split <;> first | exact Or.inl rfl | exact Or.inr ⟨_, rfl⟩
   | tflags n => exact Or.inl rfl
+  | rp o => exact Or.inl rfl
+  | rpNone o => exact Or.inl rfl
+  | rpDone o => simp only [judge1]; split <;> first | exact Or.inl rfl | exact Or.inr ⟨_, rfl⟩
   | junk s => exact Or.inr ⟨_, rfl⟩
 
 theorem foldl_bad_length (tr : List Ev) : ∀ j : JState, j.bad.length ≤ (tr.foldl judge1 j).bad.length := by
